@@ -693,6 +693,41 @@ def rule_outputs_reset(db, chk, cfg, entries, rule="OUTPUT.reset", only=None):
             if only is not None and not only(f, p):
                 continue
             kind = eng.summary(f, p.get("name"))
+            # the container may also be filled through a member that is pointed at it (`solution = &paths64;` and the work is done
+            # through `solution->`): then it must have been emptied before the first member function is called
+            if kind != "append" and f.cls:
+                alias = None
+                for x in walk(f.body):
+                    if x.get("kind") == "BinaryOperator" and x.get("opcode") == "=":
+                        l, r = _u(kids(x)[0]), _u(kids(x)[1])
+                        if l.get("kind") == "MemberExpr" and r.get("kind") == "UnaryOperator" and r.get("opcode") == "&" and canon(kids(r)[0]) == p.get("name"):
+                            alias = l.get("name")
+                if alias:
+                    fills = any(y.get("kind") == "CXXMemberCallExpr" and db.callee(y)[0] in ("emplace_back", "push_back", "insert") and
+                                canon(db.member_base(y)).replace("(", "").replace(")", "").replace("*", "") in (alias, "this->" + alias)
+                                for g in db.funcs if g.cls == f.cls and g.body is not None and not g.is_pattern for y in walk(g.body))
+                    if fills:
+                        reset_seen = False
+                        for s0 in kids(f.body):
+                            if not isinstance(s0, dict):
+                                continue
+                            if any(y.get("kind") == "CXXMemberCallExpr" and db.callee(y)[0] in ("clear", "Clear", "resize") and canon(db.member_base(y)) == p.get("name")
+                                   for y in walk(s0)):
+                                reset_seen = True
+                            calls_member = [y for y in walk(s0) if y.get("kind") == "CXXMemberCallExpr" and db.callee_func(y) is not None and db.callee_func(y).cls == f.cls
+                                            and _u(db.member_base(y) or {}).get("kind") in ("CXXThisExpr", None)]
+                            if calls_member and not reset_seen:
+                                kind = "append"
+                                n += 1
+                                chk.instance(rule, {"function": f.qual, "sig": f.sig[:70], "output": p.get("name"), "summary": "filled through this->%s, not emptied first" % alias, "cfg": cfg}, ok=False)
+                                chk.violation(rule, f.qual, "%s|%s|alias" % (f.sig[:40], p.get("name")), "%s points `%s` at its output `%s` and the work (`%s`) appends through that pointer, "
+                                              "but `%s` has not been emptied before: whatever the caller's container held before the call is offset result too"
+                                              % (f.qual, alias, p.get("name"), canon(calls_member[0])[:40], p.get("name")), where(calls_member[0]), cfg=cfg)
+                                break
+                            if calls_member:
+                                break
+                if kind == "append":
+                    continue
             n += 1
             ok = kind != "append"
             chk.instance(rule, {"function": f.qual, "sig": f.sig[:70], "output": p.get("name"), "summary": kind, "cfg": cfg}, ok=ok)
@@ -1041,4 +1076,56 @@ def rule_sticky_open_flag(db, chk, cfg, rule="FLAG.sticky", flag="has_open_paths
                               where(x), cfg=cfg)
     if n < 3:
         raise AnalysisBroken("FLAG.sticky: only %d writes of %s found" % (n, flag))
+    return n
+
+
+# ---------------------------------------------------------------------------
+# TRIM.closed-only: horizontal trimming never touches an open path (C05)
+# ---------------------------------------------------------------------------
+
+def rule_trim_closed_only(db, chk, cfg, rule="TRIM.closed-only"):
+    """TrimHorz removes vertices from a horizontal run (collinear vertices, 180-degree spikes).  On a closed path that does not change the
+    region; on an open path every vertex is part of the line, and a doubled-back stretch is length that must be reported.  Every call
+    of TrimHorz(E, ..) is dominated by a condition under which IsOpen(E) is false (the conditions are interpreted with IsOpen(E)
+    answered `true`: the call must then be unreachable)."""
+    from ..evalx import Interp, Unsupported
+    n = 0
+    for f in db.funcs:
+        if f.is_pattern or f.body is None or f.cls != "ClipperBase":
+            continue
+        par = {}
+        for x in walk(f.body):
+            for c in kids(x):
+                if isinstance(c, dict):
+                    par[id(c)] = x
+        for c in walk(f.body):
+            if c.get("kind") not in ("CallExpr", "CXXMemberCallExpr") or db.callee(c)[0] != "TrimHorz":
+                continue
+            arg = canon(db.call_args(c)[0])
+            n += 1
+            unreachable_for_open = False
+            p = par.get(id(c))
+            child = c
+            while p is not None and not unreachable_for_open:
+                if p.get("kind") == "IfStmt":
+                    cond, then, els = if_parts(p)
+                    in_then = any(y is child or y is c for y in walk(then))
+
+                    def hook(name, argv, nd):
+                        if name == "IsOpen" and canon(db.call_args(nd)[0]) == arg:
+                            return True
+                        return NotImplemented
+                    try:
+                        v = bool(Interp(db, {}, call_hook=hook).ev(cond))
+                        if v != in_then:
+                            unreachable_for_open = True
+                    except Unsupported:
+                        pass
+                child, p = p, par.get(id(p))
+            chk.instance(rule, {"function": f.qual, "call": canon(c)[:50], "unreachable_when_open": unreachable_for_open, "cfg": cfg}, ok=unreachable_for_open)
+            if not unreachable_for_open:
+                chk.violation(rule, f.qual, "TrimHorz|%s" % arg, "`%s` in %s can be reached with IsOpen(%s): trimming removes vertices of an open path (a doubled-back horizontal "
+                              "stretch disappears from the open solution)" % (canon(c)[:50], f.qual, arg), where(c), cfg=cfg)
+    if n < 1:
+        raise AnalysisBroken("TRIM.closed-only: no call of TrimHorz found")
     return n
